@@ -10,7 +10,7 @@ Oracle (property probe on the C++ outputs, judged here from the op text alone, i
   * invariances: aligned = index-based, preconditioned = plain, homogeneous = Cartesian (each against the same reference
     and pairwise inside a group);
   * a pure translation is recovered exactly (to rounding); an exact rigid motion with rotation angle t about the origin
-    is recovered with error <= C t^2, C = sqrt(n) (1/2 + |t|/4) max|s| / sigma_min(J)   (see `_rotation_bound`).
+    is recovered with error <= C t^2, C = sqrt(n) (1/2 + |t|/6) max|s| / sigma_min(J)   (see `_rotation_bound`).
 """
 import math
 from vlib import D, S, tok_val, to_f32
@@ -413,10 +413,11 @@ def gen_cases(rng, tier):
 def _rotation_bound(theta, smax_norm, n, smin):
     """|x - x*| <= |J^+| |r|, r = J x* - Y the linearisation residual of the exact motion x* = (T, theta*axis):
     r_k = ((I + [w]x - R) s_k) . n_k = (t - sin t)(a x s).n - (1 - cos t)(a x (a x s)).n   (Rodrigues; 2D alike), hence
-    |r_k| <= (|t|^3/4 + t^2/2) |s_k| for |t| <= 1 and unit a, n  (theorem rotation_residual_bound), |r| <= sqrt(n) max|r_k|,
-    |J^+| = 1 / sigma_min(J)."""
+    |r_k| <= t^2/2 |(a x (a x s)).n| + |t|^3/6 |(a x s).n|   (theorems rotation_residual_2d / rotation_residual_3d, using
+    1 - cos t <= t^2/2 and |t - sin t| <= |t|^3/6) <= (t^2/2 + |t|^3/6) |s_k| for unit a, n (Cauchy-Schwarz);
+    |r| <= sqrt(n) max|r_k|,  |J^+| = 1 / sigma_min(J)."""
     t = abs(theta)
-    return math.sqrt(n) * (t * t / 2 + t ** 3 / 4) * smax_norm / smin
+    return math.sqrt(n) * (t * t / 2 + t ** 3 / 6) * smax_norm / smin
 
 
 def oracle(case, out, stats):
